@@ -65,10 +65,8 @@ func vfMetaB(b bool) int {
 // the nsq_to_nsq harness's producer, destination topic `dst`) reaches OUR daemon once it got that port — its publish created
 // a topic the script never asked for (file and memory agreed, the model disagreed).  A listener bound to 127.a.b.c is not
 // reachable through 127.0.0.1; the whole 127/8 is local on Linux.
-func vfMetaLoop() string {
-	p := os.Getpid()
-	return fmt.Sprintf("127.%d.%d.%d:0", 1+(p>>16)%250, (p>>8)&255, 1+p%254)
-}
+// Since the cross-talk round every harness does this through the shared helpers (harness/common: vfLoopback, vfLoopAddr).
+func vfMetaLoop() string { return vfLoopAddr() }
 
 func vfMetaArm(point string, k int64) {
 	var cnt int64
